@@ -1,0 +1,16 @@
+//go:build verif
+
+package store
+
+// SimHook is set by the deterministic simulator (build tag `verif` only).
+var SimHook struct {
+	// Yield is called at instrumented points where no lock is held; the
+	// simulator may park the calling goroutine there.
+	Yield func(label string)
+}
+
+func simYield(label string) {
+	if y := SimHook.Yield; y != nil {
+		y(label)
+	}
+}
